@@ -98,7 +98,7 @@ def main():
                 json.dump(meta, open(os.path.join(d, "meta.json"), "w"), indent=1)
     sids = sorted(s for s in os.listdir(SEEDED) if os.path.isdir(os.path.join(SEEDED, s)))
     rows = []
-    with concurrent.futures.ProcessPoolExecutor(max_workers=10) as ex:
+    with concurrent.futures.ProcessPoolExecutor(max_workers=14) as ex:
         for sid, meta in ex.map(evaluate, sids):
             json.dump(meta, open(os.path.join(SEEDED, sid, "meta.json"), "w"), indent=1)
             ev = meta.get("evaluation", {})
